@@ -1,8 +1,9 @@
 """C14: soft requirements are best-effort and never harm the hard problem."""
 import vlib
-from props import solverstream as ss, tracecheck as tc
+from props import solverstream as ss, tracecheck as tc, antie
 
-THEOREMS = ["C14_valid", "C14_never_error", "C14_hard_independent_of_soft", "C14_accept_oracle_sound", "C14_accept_step_meaning"]
+THEOREMS = ["C14_valid", "C14_never_error", "C14_hard_independent_of_soft", "C14_accept_oracle_sound", "C14_accept_step_meaning",
+            "C14_analysis_keeps_earlier_solution"]
 CHECKER = ("coqc Props/C14.v + Print Assumptions; harness solve_cases with soft-requirement lists: hook logs -> extracted "
            "check_sat_log_lenient; o_valid with the documented exemption; verdict vs hard-problem reference (never an error); "
            "extracted o_soft_expect (clear-cut accept / reject steps) -> accepted soft solvables must be in the solution")
@@ -45,6 +46,13 @@ def run(res, tier, seed, replay):
     ref = ss.oracle_ref(recs)
     ss.oracle_sat(recs)
     tc.annotate(recs)
+    antie.annotate(recs)
+    for r in recs:
+        if not antie.ok(r):
+            res.tie_break(f"conflict-analysis correspondence no longer checks for a run with soft requirements in {r['stream']}: a "
+                          f"learnt clause, the number of pops, the backjump level (model: never below the level the soft run started at, "
+                          f"theorem C14_analysis_keeps_earlier_solution) or the asserted literal differs from the model of "
+                          f"Solver::analyze: {r['an']}", dict(ss.replay_obj(r), analyses=r["an"]))
     expect = soft_oracle(recs)
     applicable, accepted_checked, known_poison = 0, 0, 0
     for r in recs:
